@@ -474,10 +474,17 @@ def check_fragment_offsets(ctx, rep, roles, RULE):
                witness="; ".join(probs) or None, nontrivial=True, key="frag-offset/%s" % ("ok" if not probs else probs[0][:50]))
     # the iterator: enumerate(G(fragment)) without a start argument, fragment from split(".")
     e = roles["iter_expr"]
-    ok = len(e.args) == 1 and not e.keywords and isinstance(e.args[0], ast.Call)
+    src = e.args[0] if len(e.args) == 1 else None
+    if isinstance(src, ast.Name):
+        # a local bound once (per iteration) to the generator call:  symbols = G(fragment);  enumerate(symbols)
+        binds = [x for x in own_nodes(dec.node) if isinstance(x, ast.Assign) and any(isinstance(t, ast.Name) and t.id == src.id for t in x.targets)]
+        others = [x for x in own_nodes(dec.node) if isinstance(x, ast.Name) and x.id == src.id and isinstance(x.ctx, ast.Store)]
+        if len(binds) == 1 and len(others) == 1:
+            src = binds[0].value
+    ok = len(e.args) == 1 and not e.keywords and isinstance(src, ast.Call)
     gen = None
     if ok:
-        site = [x for x in ctx.cg.sites(dec) if x.node is e.args[0]]
+        site = [x for x in ctx.cg.sites(dec) if x.node is src]
         gen = site[0].callees[0] if site and site[0].callees else None
         ok = gen is not None and gen.is_generator
     rep.ob(RULE, ok, e, dec, construct=unparse(e)[:70], how="enumerate from 0 over the fragment's token generator (filtering: C13/N1)",
@@ -632,11 +639,15 @@ def check_writer(ctx, rep, R1, R2):
     for site in ctx.cg.sites(top):
         if any(site.node is x for rv in rets for x in ast.walk(rv)):
             scopes.extend(g for g in site.callees if g not in scopes and g.cls is None)   # return _join(fragments, ...)
+    from sa.guards import module_str_consts
     for sc in scopes:
+        consts = module_str_consts(sc)
         for n in own_nodes(sc.node):
-            if isinstance(n, ast.Call) and isinstance(n.func, ast.Attribute) and n.func.attr == "join" and isinstance(n.func.value, ast.Constant) \
-                    and isinstance(n.func.value.value, str):
-                seps.append((n, n.func.value.value))
+            if isinstance(n, ast.Call) and isinstance(n.func, ast.Attribute) and n.func.attr == "join":
+                if isinstance(n.func.value, ast.Constant) and isinstance(n.func.value.value, str):
+                    seps.append((n, n.func.value.value))
+                elif isinstance(n.func.value, ast.Name) and n.func.value.id in consts:
+                    seps.append((n, consts[n.func.value.id]))      # a module-level string constant as separator
     frag_join = [(n, sp) for n, sp in seps if any(x is n for x in ast.walk(wr["loop"])) and n.args and isinstance(n.args[0], ast.Name)
                  and n.args[0].id == wr["list_local"]]
     out_join = [(n, sp) for n, sp in seps if not any(x is n for x in ast.walk(wr["loop"]))]
@@ -763,10 +774,19 @@ def check_parser_attribution(ctx, rep, RULE):
     events = []
 
     def reaches_attr(g):
+        # functions that store an attribution, or that build the Attribution entries to be stored, are inlined
         try:
-            return add_attr.qual in set(ctx.cg.region(g))
+            reg = set(ctx.cg.region(g))
         except Exception:
             return False
+        if add_attr.qual in reg:
+            return True
+        for q in reg | {g.qual}:
+            h_ = ctx.db.funcs.get(q)
+            if h_ is not None and h_.module is g.module and any(
+                    isinstance(n, ast.Call) and unparse(n.func).split(".")[-1] == "Attribution" for n in own_nodes(h_.node)):
+                return True
+        return False
 
     class H(Hooks):
         def opaque_call(self, eng, fr, node, callee, args, kwargs, st):
